@@ -52,7 +52,8 @@ def one(tier, seed, ev, rep, kind, ids, fresh, maxlive, budget, maxview=1):
         e["act"] = norm_act(e["act"])
     g = replay.Graph(edges, key_fields_drop=("out",))
     del edges
-    stats, viol, _, _, samples = replay.cover(g, lambda: MolEditAdapter(kind), seed=seed, max_path=40, budget_s=budget)
+    stats, viol, _, _, samples = replay.cover_parallel(g, lambda: MolEditAdapter(kind), seed=seed, nproc=6 if tier == "quick" else 12,
+                                                       max_path=40, budget_s=budget)
     ev.count(evaluations=stats["steps"], distinct_nontrivial=stats["pairs_exercised"], traces=stats["paths"])
     ev.cov.setdefault("replay", {})[f"{kind},{ids},{fresh},{maxlive},view{maxview}"] = stats
     ev.add_samples([{"kind": kind, "path": s} for s in samples], 1)
